@@ -2,6 +2,7 @@ package main
 
 import (
 	"fmt"
+	"go/types"
 	"os"
 	"strings"
 
@@ -182,4 +183,69 @@ func (c *Ctx) reachesRetry(fn *ssa.Function) bool {
 		return found
 	}
 	return walk(fn)
+}
+
+// checkRefusedLeavesNoTrace: "such datagrams are treated as if no valid response had arrived".
+// On every path of the in-session operation that decodes a reply and then refuses it (returns
+// non-nil to backoff.Retry), nothing is stored into the session object after the decode: a
+// datagram anyone can send (flag cleared, no key needed) must not move session state — a
+// replay window, a counter, a "last seen" — that later authentic replies are judged by.
+func checkRefusedLeavesNoTrace(c *Ctx, r *Report) {
+	r.Rule("refused-leaves-no-trace", "on every path of the in-session operation that refuses a decoded reply, no field of the session object is written after the decode", 1)
+	v2s := c.Named("", "V2Session")
+	n := 0
+	for _, s := range c.SendClosures() {
+		if !s.Session {
+			continue
+		}
+		n++
+		name := c.FnName(s.Fn)
+		ok := true
+		var pos = s.Fn.Pos()
+		what := ""
+		complete := enumPaths(s.Fn, 1, 200000, func(p CPath) {
+			ret, isRet := p.Last().(*ssa.Return)
+			if !isRet || ret.Parent() != s.Fn || len(ret.Results) != 1 {
+				return
+			}
+			if isNilConst(p.Resolve(ret.Results[0])) {
+				return // accepted (or ended): stores on the accepting path are the session's business
+			}
+			decoded := false
+			for _, oc := range p.Occs() {
+				if isDecodeCall(oc.In) {
+					decoded = true
+					continue
+				}
+				st, isSt := oc.In.(*ssa.Store)
+				if !decoded || !isSt {
+					continue
+				}
+				a := p.APIn(oc.Ctx, st.Addr)
+				if a.Root == nil || len(a.Sel) == 0 {
+					continue
+				}
+				if v2s != nil && isPtrTo(a.Root.Type(), v2s) {
+					ok = false
+					pos = st.Pos()
+					what = a.SelString()
+				} else if fv, isFV := a.Root.(*ssa.FreeVar); isFV {
+					// the captured session pointer is a cell: *s is the session
+					if pt, isP := fv.Type().(*types.Pointer); isP && v2s != nil && isPtrTo(pt.Elem(), v2s) {
+						ok = false
+						pos = st.Pos()
+						what = a.SelString()
+					}
+				}
+			}
+		})
+		if !complete {
+			r.Unk(name+"|refused reply", s.Fn.Pos(), "too many paths")
+			continue
+		}
+		r.Check(ok, name+"|refused reply", pos, "no session state written after the decode on refusing paths", "a reply that is then refused has already been written into the session ("+what+"): an unauthenticated datagram changes what later authentic replies are judged against")
+	}
+	if n == 0 {
+		r.Lost("in-session send closure")
+	}
 }
